@@ -33,7 +33,8 @@ StmtsTypes    == {S("typeorder", 0), S("objstr", 0), S("objmap", 0), S("readg", 
 StmtsExt      == {S("extecho", 1), S("extecho", 2), S("extquiet", 0), S("readg", 0)}
 StmtsAll      == {S("print", 0), S("evalprint", 0), S("tofixed", 2), S("tofixed", -1), S("fixedprint", 3), S("fmtfixed", 2), S("counter", 0),
                   S("define", 1), S("usedef", 0), S("defuse", 2), S("setg", 1), S("readg", 0), S("loadcfg", 1), S("readcfg", 0),
-                  S("typeorder", 0), S("collstr", 0), S("objstr", 0), S("objmap", 0), S("extecho", 1), S("extquiet", 0)}
+                  S("typeorder", 0), S("collstr", 0), S("objstr", 0), S("objmap", 0), S("extecho", 1), S("extquiet", 0), S("warn", 0), S("fmtwarn", 0)}
+StmtsWarn     == {S("warn", 0), S("fmtwarn", 0), S("readg", 0)}
 Creates(who) == IF who = "P" THEN {S("create", 1)} ELSE {S("create", 1), S("create", 2)}
 
 Init == /\ \E b \in Addrs : w = NewWorld(b)
